@@ -114,6 +114,8 @@ type Machine struct {
 	unknownBr   int
 	foldMark    int
 	oneShotKind string
+	fpSolver    *Solver
+	lastSolver  *Solver
 	thr         *threads
 	curFrame    *frame
 }
@@ -225,7 +227,25 @@ func (m *Machine) check(extra ...*Term) Verdict {
 		}
 		// a model is needed by callers after Sat: fall through to the incremental solver
 	}
-	v, msg := m.solver.Check(lits)
+	sv := m.solver
+	if m.ex != nil && m.ex.FPSolver != "" {
+		for _, l := range lits {
+			if l.FP {
+				if m.fpSolver == nil {
+					fs, err := NewSolver(m.ex.FPSolver, m.lim.QueryTimeout)
+					if err == nil {
+						m.fpSolver = fs
+					}
+				}
+				if m.fpSolver != nil {
+					sv = m.fpSolver
+				}
+				break
+			}
+		}
+	}
+	m.lastSolver = sv
+	v, msg := sv.Check(lits)
 	if v == Unknown && m.ex != nil {
 		m.ex.noteUnknown(msg)
 		// fallback: one-shot with the alternative back ends
@@ -334,7 +354,10 @@ func (m *Machine) choice(n int, why string) int {
 
 // termValue asks the solver for the value of t in the current model (after Sat).
 func (m *Machine) termValue(t *Term) (uint64, bool) {
-	s := m.solver
+	s := m.lastSolver
+	if s == nil {
+		s = m.solver
+	}
 	s.buf.WriteString("(get-value (" + t.ref() + "))\n")
 	if err := s.send(); err != nil {
 		return 0, false
@@ -376,6 +399,9 @@ func (m *Machine) concretize(t *Term, why string) int64 {
 	var excl []*Term
 	for {
 		m.solver.Define(t)
+		if m.fpSolver != nil {
+			m.fpSolver.Define(t)
+		}
 		v := m.check(excl...)
 		if v == Unsat {
 			break
@@ -480,7 +506,11 @@ func (m *Machine) model(extra ...*Term) (map[string]uint64, bool) {
 	for _, nv := range m.nondet {
 		vars = append(vars, m.nondetT[nv.Name])
 	}
-	vals, err := m.solver.Values(vars)
+	ls := m.lastSolver
+	if ls == nil {
+		ls = m.solver
+	}
+	vals, err := ls.Values(vars)
 	if err != nil {
 		return nil, false
 	}
